@@ -241,44 +241,40 @@ func (r *reparseImpl) report(h *vh.H, op, origin string, results []reparseResult
 	return strings.Join(parts, " ")
 }
 
-func (r *reparseImpl) Exec(h *vh.H, op string) string {
-	f := strings.Split(op, " ")
-	stats := func(k string) { h.Count(k) }
+// descriptorsOf runs the input part of an op (`proto` / `j5sfile` / `j5s` / `src` / `fdp`) and returns
+// the descriptors to print; skip != "" when the input itself is unusable (result word of the op).
+func descriptorsOf(h *vh.H, f []string) (fds []protoreflect.FileDescriptor, origin string, skip string) {
 	switch f[0] {
 	case "proto":
 		if len(f) != 2 {
-			return "bad-op"
+			return nil, "", "bad-op"
 		}
 		if err := repo.load(); err != nil {
-			return "bad-op"
+			return nil, "", "bad-op"
 		}
 		imp, ok := repo.rel[f[1]]
 		if !ok {
-			return "bad-op"
+			return nil, "", "bad-op"
 		}
 		fd, err := repo.compile(imp)
 		if err != nil {
 			h.Count("file.proto.original-does-not-compile")
-			return "skip-uncompilable"
+			return nil, "", "skip-uncompilable"
 		}
-		res := reparseFile(fd, nil, stats)
-		if res.status != "print-err" {
-			h.Nontrivial(op)
-		}
-		return r.report(h, op, "proto", []reparseResult{res})
+		return []protoreflect.FileDescriptor{fd}, "proto", ""
 
 	case "j5sfile", "j5s":
 		files := map[string][]byte{}
 		if f[0] == "j5sfile" {
 			if len(f) != 2 {
-				return "bad-op"
+				return nil, "", "bad-op"
 			}
 			if err := repo.load(); err != nil {
-				return "bad-op"
+				return nil, "", "bad-op"
 			}
 			b, err := os.ReadFile(filepath.Join(repoRoot(), f[1]))
 			if err != nil {
-				return "bad-op"
+				return nil, "", "bad-op"
 			}
 			// import path = path below the bundle root
 			imp := f[1]
@@ -293,11 +289,11 @@ func (r *reparseImpl) Exec(h *vh.H, op string) string {
 			for _, kv := range f[1:] {
 				i := strings.IndexByte(kv, '=')
 				if i < 0 {
-					return "bad-op"
+					return nil, "", "bad-op"
 				}
 				b, ok := vh.UnHex(kv[i+1:])
 				if !ok {
-					return "bad-op"
+					return nil, "", "bad-op"
 				}
 				files[kv[:i]] = b
 			}
@@ -311,23 +307,21 @@ func (r *reparseImpl) Exec(h *vh.H, op string) string {
 					fmt.Fprintf(os.Stderr, "## %s\n%s\n", k, v)
 				}
 			}
-			return "skip-uncompilable"
+			return nil, "", "skip-uncompilable"
 		}
-		var results []reparseResult
 		for _, fd := range out {
-			results = append(results, reparseFile(fd, nil, stats))
+			fds = append(fds, fd)
 		}
-		h.Nontrivial(op)
-		return r.report(h, op, "j5s", results)
+		return fds, "j5s", ""
 
 	case "src":
 		// src <import path> <hex proto source>: a hand-written proto file, imports from the built-in registry
 		if len(f) != 3 {
-			return "bad-op"
+			return nil, "", "bad-op"
 		}
 		b, ok := vh.UnHex(f[2])
 		if !ok {
-			return "bad-op"
+			return nil, "", "bad-op"
 		}
 		fd, err := compileText(f[1], string(b), protosrc.BuiltinResolver)
 		if err != nil {
@@ -335,24 +329,22 @@ func (r *reparseImpl) Exec(h *vh.H, op string) string {
 			if os.Getenv("PRINT_DEBUG") != "" {
 				fmt.Fprintf(os.Stderr, "---- src does not compile: %v\n", err)
 			}
-			return "skip-uncompilable"
+			return nil, "", "skip-uncompilable"
 		}
-		res := reparseFile(fd, nil, stats)
-		h.Nontrivial(op)
-		return r.report(h, op, "src", []reparseResult{res})
+		return []protoreflect.FileDescriptor{fd}, "src", ""
 
 	case "fdp":
 		// fdp <hex FileDescriptorProto dep>* <hex FileDescriptorProto main>; imports beyond the
 		// listed files come from the Go registry (descriptor.proto, google/api, j5 annotations, ...)
 		if len(f) < 2 {
-			return "bad-op"
+			return nil, "", "bad-op"
 		}
 		reg := &protoregistry.Files{}
 		var last protoreflect.FileDescriptor
 		for _, hx := range f[1:] {
 			b, ok := vh.UnHex(hx)
 			if !ok {
-				return "bad-op"
+				return nil, "", "bad-op"
 			}
 			fd, err := typedFile(b, reg)
 			if err != nil {
@@ -360,20 +352,38 @@ func (r *reparseImpl) Exec(h *vh.H, op string) string {
 				if os.Getenv("PRINT_DEBUG") != "" {
 					fmt.Fprintf(os.Stderr, "---- fdp invalid: %v\n", err)
 				}
-				return "skip-invalid"
+				return nil, "", "skip-invalid"
 			}
 			if err := reg.RegisterFile(fd); err != nil {
-				return "skip-invalid"
+				return nil, "", "skip-invalid"
 			}
 			last = fd
 		}
-		res := reparseFile(last, nil, stats)
-		if res.status != "print-err" {
-			h.Nontrivial(op)
-		}
-		return r.report(h, op, "fdp", []reparseResult{res})
+		return []protoreflect.FileDescriptor{last}, "fdp", ""
 	}
-	return "bad-op"
+	return nil, "", "bad-op"
+}
+
+func (r *reparseImpl) Exec(h *vh.H, op string) string {
+	f := strings.Split(op, " ")
+	stats := func(k string) { h.Count(k) }
+	fds, origin, skip := descriptorsOf(h, f)
+	if skip != "" {
+		return skip
+	}
+	var results []reparseResult
+	nontrivial := origin == "j5s" || origin == "src"
+	for _, fd := range fds {
+		res := reparseFile(fd, nil, stats)
+		if res.status != "print-err" {
+			nontrivial = true
+		}
+		results = append(results, res)
+	}
+	if nontrivial {
+		h.Nontrivial(op)
+	}
+	return r.report(h, op, origin, results)
 }
 
 // fallbackResolver looks in the op's own files first, then in the Go global registry.
